@@ -2,6 +2,7 @@
 from __future__ import annotations
 
 import io
+import zlib
 import logging
 import random
 import re
@@ -33,9 +34,10 @@ REQUIRED = {"capture.nothing_reaches_real_stream": {"quick": 1200, "thorough": 3
             "run.streams_restored_at_end": {"quick": 600, "thorough": 30000}}
 REQUIRED_SEEN = {"switches": ["out1err1log1", "out1err1log0", "out1err0log1", "out1err0log0", "out0err1log1", "out0err1log0",
                               "out0err0log1", "out0err0log0"],
-                 "log_habit": ["plain", "flush", "bulk"]}
+                 "log_habit": ["plain", "flush", "bulk"], "setup_logging_from_hook": ["DEBUG", "WARNING"],
+                 "capture_switched_at_runtime": ["per scenario"]}
 NSHARDS = {"quick": 16, "thorough": 16}
-MARK = re.compile(r"\[([BMAS])\|([^|\]]*)\|([^|\]]*)\|(out|err|log)\]")
+MARK = re.compile(r"\[([BMAS])\|([^|\]]*)\|([^|\]]*)\|(out|err|log|dbg)\]")
 
 
 def plan(tier, seed):
@@ -82,7 +84,9 @@ def install_wrappers(lab):
         before = ([h for h in root.handlers if not isinstance(h, LoggingCapture)], root.level,
                   [h for h in root.handlers if isinstance(h, LoggingCapture)])
         result = orig_scen(self, runner)
-        if st is not None and mon is not None:
+        if st is not None and mon is not None and not getattr(st, "runtime_switch", False):
+            # (when user code flips the capture switches in the middle of a scenario the handler bookkeeping follows the
+            #  switches it sees at setup / teardown time: not what the statement is about)
             after_plain = [h for h in root.handlers if not isinstance(h, LoggingCapture)]
             after_cap = [h for h in root.handlers if isinstance(h, LoggingCapture)]
             new_caps = [h for h in after_cap if h not in before[2]]
@@ -122,6 +126,7 @@ def run_case(lab, mon, case, rng, sample=False):
         sys.stdout.write(marker(kind, sid, scen, "out") + "\n")
         sys.stderr.write(marker(kind, sid, scen, "err") + "\n")
         logging.getLogger("bvm.c18").warning("%s", marker(kind, sid, scen, "log"))
+        logging.getLogger("bvm.c18").debug("%s", marker(kind, sid, scen, "dbg"))
         if log_habit == "flush":
             # the usual "make sure everything is written" idiom of user code: must not lose what was captured
             for h in logging.getLogger().handlers:
@@ -144,11 +149,31 @@ def run_case(lab, mon, case, rng, sample=False):
                 state.nesting = False
 
     root_level = case.get("root_level")
+    runtime_switch = bool(case.get("runtime_switch"))
+    # the level log capture works with: --logging-level (default INFO), or what user code asks for with the documented
+    # context.config.setup_logging(level) from a hook
+    eff_level = logging.INFO
+    for a in args:
+        if a.startswith("--logging-level="):
+            eff_level = getattr(logging, a.split("=", 1)[1])
+    hook_level = case.get("setup_logging_level")
+    if hook_level is not None:
+        eff_level = hook_level
+    cap_dbg = cap_log and eff_level <= logging.DEBUG
+    uncaptured = set()
 
     def hook_plugin(state, context, name, elem, tag):
+        if name == "before_all" and hook_level is not None:
+            context.config.setup_logging(level=hook_level)
         if name == "before_all" and root_level is not None:
             # user code configures logging in before_all (root logger level incl. NOTSET)
             logging.getLogger().setLevel(root_level)
+        if runtime_switch and name == "before_scenario" and zlib.crc32(elem.name.encode("utf-8")) % 2:
+            # an environment.py honouring a "@no_capture"-like tag: capture switched off for THIS scenario only
+            context.config.stdout_capture = context.config.stderr_capture = context.config.log_capture = False
+            uncaptured.add(elem.name)
+        if runtime_switch and name == "after_scenario":
+            context.config.stdout_capture, context.config.stderr_capture, context.config.log_capture = cap_out, cap_err, cap_log
         if name in ("before_step", "after_step"):
             sc = getattr(context, "scenario", None)
             sid = elem.name.split(" ")[0]
@@ -165,6 +190,7 @@ def run_case(lab, mon, case, rng, sample=False):
         lab._state = st
         st.nesting = False
         st.step_exit_exceptional = []
+        st.runtime_switch = runtime_switch
         st.real_out.on_write = on_real_write
         st.real_err.on_write = on_real_write
     lab._case_w = {"args": args, "features": RB.case_texts(case)[:1]}
@@ -178,6 +204,16 @@ def run_case(lab, mon, case, rng, sample=False):
     mon.seen("switches", sw)
     if obs.escaped is not None and not isinstance(obs.escaped, KeyboardInterrupt):
         mon.check("run.no_exception_escapes", False, lambda: W(escaped=repr(obs.escaped)))
+        return
+    if runtime_switch:
+        # only the clause "nothing from other scenarios" is evaluated in these runs (what passes through is not modelled)
+        for f in obs.features:
+            for s in f.walk_scenarios():
+                for step in s.all_steps:
+                    if step.status.name in ("failed", "error") and step.error_message is not None:
+                        foreign = [m for m in MARK.findall(step.error_message) if m[2] != s.name]
+                        mon.check("report.nothing_from_other_scenarios", not foreign,
+                                  lambda: W(scenario=s.name, step=step.name, capture_switched_off_for=sorted(uncaptured)[:6], foreign=foreign[:4]))
         return
     # ---- (b') at the end of the run the process streams are the real ones again --------------------
     mon.check("run.streams_restored_at_end", obs.stream_after[0] is obs.real_out and obs.stream_after[1] is obs.real_err,
@@ -213,11 +249,11 @@ def run_case(lab, mon, case, rng, sample=False):
                         if not cap_log:
                             # log capture off: records go wherever logging sends them (with no handler configured:
                             # logging.lastResort -> sys.stderr, i.e. into the stderr capture) -- not tracked
-                            got = [m for m in got if m[3] != "log"]
+                            got = [m for m in got if m[3] not in ("log", "dbg")]
                         # everything the scenario produced (it stops after this step)
                         exp = []
                         for (k, sid) in produced[s.name]:
-                            for chan, on in (("out", cap_out), ("err", cap_err), ("log", cap_log)):
+                            for chan, on in (("out", cap_out), ("err", cap_err), ("log", cap_log), ("dbg", cap_dbg)):
                                 if on:
                                     exp.append((k, sid, s.name, chan))
                         foreign = [m for m in got if m[2] != s.name]
@@ -302,6 +338,12 @@ def run(spec, mon):
         case["nested"] = nested
         if (i // 8) % 2 == 0:       # (independent of the switch combination, which cycles with i % 8)
             case["root_level"] = rng.choice([logging.NOTSET, logging.DEBUG, logging.INFO, logging.WARNING, logging.ERROR])
+        if i % 9 == 4:
+            case["setup_logging_level"] = rng.choice([logging.DEBUG, logging.DEBUG, logging.WARNING])
+            mon.seen("setup_logging_from_hook", logging.getLevelName(case["setup_logging_level"]))
+        if i % 11 == 6:
+            case["runtime_switch"] = True
+            mon.seen("capture_switched_at_runtime", "per scenario")
         if i % 7 == 3:
             case["log_habit"] = "flush"
         elif i % 23 == 5:
